@@ -14,7 +14,7 @@ from permcorr import coq_near, fake_cutoff, random_near
 from reference import min_image_distances
 from tensors import full_basis_tensors, same_span
 
-UNITS = ["Tables", "CutoffGen", "ShapesGeom", "ShapesCombos", "ShapesBasis", "ShapesPerm", "ShapesApi", "ShapesAuxCut", "SkelBasis", "SkelApi", "SkelCut", "SkelPerm"]
+UNITS = ["Tables", "CutoffGen", "ShapesGeom", "ShapesCombos", "ShapesBasis", "ShapesPerm", "ShapesApi", "ShapesAuxCut", "SkelBasis", "SkelApi", "SkelCut", "SkelPerm", "SolverStruct", "ShapesSolvers", "SkelSolvers"]
 PROPS = ["props/C07.v", "props/C07_geom.v"]
 EXTRA = ["theories/Cutoff.vo"]
 ASSUMPTIONS = ["'Niggli-reduce, wrap, 27 images' = true minimum image is NOT proved; it is compared with a brute force whose search radius is certified by |t_k| <= d |b*_k| (partial)",
